@@ -3,6 +3,7 @@ package midicat
 import (
 	"fmt"
 	"io"
+	"strings"
 )
 
 func read(rd io.Reader) (byte, error) {
@@ -28,6 +29,11 @@ func convert(b []byte) (out []byte, err error) {
 	_, err = fmt.Sscanf(string(b), "%X", &out)
 	if err != nil {
 		return nil, err
+	}
+
+	// Sscanf stops silently at the first character that is no hex digit
+	if 2*len(out) != len(strings.TrimSpace(string(b))) {
+		return nil, fmt.Errorf("invalid hex data %q", string(b))
 	}
 
 	return out, nil
